@@ -1,5 +1,6 @@
 //! kvh — verification harness driving the real KyroDB engine code in-process.
 mod proto;
+mod backupeng;
 mod codec;
 mod configeng;
 mod damage;
